@@ -287,12 +287,13 @@ def _worker_init():
 
 
 _MODULE_SNAPSHOT = {}
-_RESET_PLAN = {'caches': [], 'containers': [], 'calls': 0}
+_RESET_PLAN = {'caches': [], 'containers': [], 'scalars': [], 'calls': 0}
+_WARN_FILTERS = None
 
 
 def _scan_library_state():
     import copy as _copy
-    caches, containers = [], []
+    caches, containers, scalars = [], [], []
     for mname, mod in list(sys.modules.items()):
         if mod is None or not (mname == 'lentil' or mname.startswith('lentil.')):
             continue
@@ -301,6 +302,12 @@ def _scan_library_state():
                 continue
             if callable(getattr(val, 'cache_clear', None)):
                 caches.append(val)
+            elif isinstance(val, (bool, int, float, complex, str, bytes, tuple, frozenset, type(None))) and not isinstance(val, type):
+                # immutable module-level globals (flags, signs, counters) are re-bound to their first-seen value
+                key = (mname, name)
+                if key not in _MODULE_SNAPSHOT:
+                    _MODULE_SNAPSHOT[key] = ('scalar', val)
+                scalars.append((mod, name, _MODULE_SNAPSHOT[key][1]))
             elif isinstance(val, (dict, list, set)):
                 key = (mname, name)
                 if key not in _MODULE_SNAPSHOT:
@@ -310,7 +317,7 @@ def _scan_library_state():
                         _MODULE_SNAPSHOT[key] = None
                 if _MODULE_SNAPSHOT[key] is not None:
                     containers.append((val, _MODULE_SNAPSHOT[key]))
-    _RESET_PLAN['caches'], _RESET_PLAN['containers'] = caches, containers
+    _RESET_PLAN['caches'], _RESET_PLAN['containers'], _RESET_PLAN['scalars'] = caches, containers, scalars
 
 
 def reset_library_state():
@@ -322,6 +329,21 @@ def reset_library_state():
     if _RESET_PLAN['calls'] % 2000 == 0:
         _scan_library_state()
     _RESET_PLAN['calls'] += 1
+    global _WARN_FILTERS
+    import warnings as _w
+    import numpy as _np
+    if _WARN_FILTERS is None:
+        _WARN_FILTERS = list(_w.filters)
+    elif list(_w.filters) != _WARN_FILTERS:
+        _w.filters[:] = _WARN_FILTERS          # a leaked warnings.simplefilter(...) is process-global state too
+        if hasattr(_w, '_filters_mutated'):
+            _w._filters_mutated()
+    for mod, name, v0 in _RESET_PLAN['scalars']:
+        try:
+            if getattr(mod, name, v0) is not v0 and getattr(mod, name, v0) != v0:
+                setattr(mod, name, v0)
+        except Exception:
+            pass
     for c in _RESET_PLAN['caches']:
         c.cache_clear()
     for val, snap in _RESET_PLAN['containers']:
@@ -356,21 +378,43 @@ def guarded(fn, seconds=20):
         signal.signal(signal.SIGALRM, old)
 
 
+def call_task(mod, fname, arg, acc):
+    """Run one task function.  An exception that escapes from *library* code (innermost frame under LENTIL_SRC) on an input the
+    check treats as legal is a behaviour of the code under test, reported as a violation replayable at task level; an
+    exception raised by the checking code itself is a machinery error."""
+    try:
+        getattr(mod, fname)(arg, acc)
+    except StopTask as e:
+        acc.caps.append(f'{fname}: {e}')
+    except Exception as e:
+        tb = traceback.extract_tb(e.__traceback__)
+        inner = tb[-1] if tb else None
+        lib_frames = [f for f in tb if os.path.realpath(f.filename).startswith(LENTIL_SRC + os.sep)]
+        if inner is not None and lib_frames and (os.path.realpath(inner.filename).startswith(LENTIL_SRC + os.sep)
+                                                  or 'site-packages' in inner.filename or '/lib/python' in inner.filename):
+            where = lib_frames[-1]
+            try:
+                acc.violation(f'library-raises:{type(e).__name__}:{os.path.basename(where.filename)}:{where.name}',
+                              {'kind': 'task', 'task': [fname, arg]},
+                              f'{type(e).__name__}: {e} raised inside {os.path.basename(where.filename)}:{where.name} (line {where.lineno}) '
+                              f'on an input this check treats as legal; rest of the task skipped')
+            except StopTask:
+                pass
+            acc.caps.append(f'{fname}: aborted by an exception from the library')
+        else:
+            acc.errors.append(f'task {fname}({jdump(arg)[:300]}) crashed:\n{traceback.format_exc()}')
+
+
 def _run_task(t):
     modname, fname, arg = t
     acc = Acc()
     acc.budget = int(os.environ.get('VERIF_VIOLATION_BUDGET', '25'))
     acc.task = (fname, arg)
-    try:
-        mod = _WORKER_MODS.get(modname)
-        if mod is None:
-            import importlib
-            mod = _WORKER_MODS[modname] = importlib.import_module(modname)
-        getattr(mod, fname)(arg, acc)
-    except StopTask as e:
-        acc.caps.append(f'{fname}: {e}')
-    except Exception:
-        acc.errors.append(f'task {fname}({jdump(arg)[:300]}) crashed:\n{traceback.format_exc()}')
+    mod = _WORKER_MODS.get(modname)
+    if mod is None:
+        import importlib
+        mod = _WORKER_MODS[modname] = importlib.import_module(modname)
+    call_task(mod, fname, arg, acc)
     return acc
 
 
